@@ -167,7 +167,7 @@ def run_space(prop, tier, crash_owners):
     return cov, viols, inc
 
 
-def run_engine(prop, tier, cfgs, hist_quick, hist_thorough, ops=60, extra_args=(), crash_owners=("C03", "C02")):
+def run_engine(prop, tier, cfgs, hist_quick, hist_thorough, ops=60, extra_args=(), crash_owners=("C03", "C02"), any_prop=False):
     bins = core.build_many([c.spec() for c in cfgs])
     nh = hist_quick if tier == "quick" else hist_thorough
     k = max(1, round(2.0 * core.NCPU / len(cfgs)))
@@ -188,7 +188,7 @@ def run_engine(prop, tier, cfgs, hist_quick, hist_thorough, ops=60, extra_args=(
     old = vec.CRASH_OWNERS
     vec.CRASH_OWNERS = set(crash_owners)
     try:
-        return vec.aggregate(prop, results, extra_args)
+        return vec.aggregate(prop, results, extra_args, None, any_prop)
     finally:
         vec.CRASH_OWNERS = old
 
